@@ -28,6 +28,9 @@ import PyModeS.Tie.Basic
 import PyModeS.Generated.Src.bds05
 import PyModeS.Generated.Src.bds06
 
+-- symbolic execution of long generated `do` blocks: generous but finite budget (proof times are seconds)
+set_option maxHeartbeats 1000000
+
 namespace PyModeS.Tie
 open PyModeS PyModeS.Py PyModeS.CRC
 
